@@ -12,6 +12,8 @@ R7.4 shape and labels: result arrays are (len(timepoints), num_species), rows ar
 species at the running index, returned with the caller's time axis (truncated consistently on
 division); data frame columns come from the model's species order, time and volume columns from
 the result.
+R7.3b optional Model: the data frame conversion uses its optional Model argument (None for a pre-built interface) only under a
+test that it was given.
 """
 import ast
 import itertools
